@@ -45,4 +45,16 @@ _add("C18", "Pfdl.Props.C18.fire_independent_of_listeners", "Pfdl.Props.C18.star
      "Pfdl.Props.C18.history_independent_of_listeners", "Pfdl.Props.C18.deterministic")
 _add("C20", "Pfdl.Props.C20.register_ret", "Pfdl.Props.C20.register_effect", "Pfdl.Props.C20.fanout",
      "Pfdl.Props.C20.fanout_service_started", "Pfdl.Props.C20.fanout_other", "Pfdl.Props.C20.listeners_nodup", "Pfdl.Props.C20.each_once")
+_add("C09", "Pfdl.Props.C09.accepted_calls_resolve", "Pfdl.Props.C09.accepted_parallel_branches_resolve",
+     "Pfdl.Props.C09.accepted_has_production_task", "Pfdl.Props.C09.accepted_no_direct_recursion",
+     "Pfdl.Props.C09.accepted_limits_are_numbers", "Pfdl.Check.validate_total")
+_add("C10", "Pfdl.Check.checkStmt_descent", "Pfdl.Check.validate_of_nested_stmt", "Pfdl.Props.C10.nested_fault_reported",
+     "Pfdl.Props.C10.unknown_task", "Pfdl.Props.C10.ill_formed_parallel_loop", "Pfdl.Props.C10.singleCall_iff",
+     "Pfdl.Props.C10.unknown_variable_as_service_input", "Pfdl.Props.C10.unknown_variable_as_call_input", "Pfdl.Props.C10.call_arity",
+     "Pfdl.Props.C10.no_production_task", "Pfdl.Props.C10.undeclared_task_output", "Pfdl.Props.C10.unknown_type_in_struct",
+     "Pfdl.Props.C10.recursion_direct")
+_add("C16", "Pfdl.Props.C16.verdict_iff_no_output", "Pfdl.Props.C16.total_after_parsing", "Pfdl.Check.validate_total",
+     "Pfdl.Check.access_typeable", "Pfdl.Check.checkExpr_total", "Pfdl.Props.C16.invalid_inert")
+_add("C19", "Pfdl.Props.C19.in_file", "Pfdl.Check.validate_lines", "Pfdl.Props.C19.within_statement", "Pfdl.Props.C19.call_fault_at_call",
+     "Pfdl.Props.C19.unknown_task_at_call", "Pfdl.Props.C19.no_production_task_at_line_1")
 _add("C13", "Pfdl.Props.C13.table_complete")
